@@ -98,7 +98,7 @@ def predicted (entry wher : String) : Option String :=
     if failingSenderBody b && holdsHandle b then
       some s!"row {b}: its sender handle comes from another tracer than the one it sends on ({otherTracer})"
     else if failingSenderBody b then some s!"row {b}: sends traces, not a registered sender"
-    else if registeredBody b && failingSenders.contains "subProcess.run#1" then
+    else if registeredBody b && failingSenderBodies.contains "subProcess.run$1" then
       some s!"row {b} is registered by subProcess.run$1, which is itself not a registered sender (row subProcess.run#1): registration after the inner tracer ended"
     else none
   else if b == "tracing.tracer.run" && stateOfWhere wher == "chan_send" then
